@@ -2,7 +2,7 @@
    Statements only, over the functions generated from the current source. *)
 From Coq Require Import String List ZArith Bool Lia Reals Lra.
 From QV Require Import Lib.Res Lib.Tensor Lib.ND Lib.NDFacts Lib.Num Lib.QTensor Model.Quant
-     Proofs.QuantProofs Proofs.RealNum Proofs.GroupProofs Proofs.AffineReal Proofs.AffineProofs.
+     Proofs.QuantProofs Proofs.RealNum Proofs.GroupProofs Proofs.AffineReal Proofs.AffineProofs Proofs.ScaleProofs Proofs.MaxCells.
 From Flocq Require Import Core.
 From QD Require Import GenNum TieC02.
 Import ListNotations.
@@ -58,3 +58,19 @@ Print Assumptions C02_half_step_exact.
    optimizer), x = 10.4 *)
 Example C02_hyps_satisfiable : (0 <= 0 <= 11)%R /\ (0 <= 104 / 10 <= 11)%R /\ (0 < 11)%R.
 Proof. repeat split; lra. Qed.
+
+(* MaxOptimizer (int2 / int4), for any number type, rank and shape: one scale per cell of the reduction (per kept-axis
+   index, or per group after grouping), equal to (max(cell max, 0) - min(cell min, 0)) / (2^bits - 1), where the cell
+   minimum and maximum are folds over exactly the members of that cell: the quantization range is the hull of the
+   cell and zero, and nothing outside the cell influences it *)
+Theorem C02_max_optimizer_cells : forall (F : Type) (NF : Num F) (base S Zp : tensor F) bits a,
+  pos_dims (shape base) -> shape base <> [] ->
+  src_max_optimize base bits (Some a) = Ok (S, Zp) ->
+  let rd := opt_dims base (Some a) in
+  shape S = red_shape (shape base) rd /\
+  forall c, 0 <= c < prodZ (shape S) ->
+    exists mn mx, cell_fold n_min base rd c = Some mn /\ cell_fold n_max base rd c = Some mx /\
+      zget (data S) c f0 =
+      n_div (n_sub (n_max mx (n_of_Z 0)) (n_min mn (n_of_Z 0))) (n_of_Z ((2 ^ (bits - 1) - 1) - (- 2 ^ (bits - 1)))).
+Proof. intros F NF. rewrite tie_max_optimize. exact (@max_optimize_cells F NF). Qed.
+Print Assumptions C02_max_optimizer_cells.
